@@ -7,6 +7,13 @@ Per generated document (AST0 = what the real parser reads from the generated tex
       markdown pair scan) and compared as sets of (path, cell) items with the source; lossy flag; formats agree;
       every deviation must be attributed to a listed finding by a precise per-item clause, else it is a failure;
   (CLI) `octave eject` (CliRunner) must print what the tool returns, or differ only by a listed finding's clause.
+
+Repair 88905cd (eject.py: holographic values exported as their pattern text, nested META blocks converted) made the
+TOOL clean on holographic values / nested META blocks: no attribution exists for the tool path any more -- a TypeError,
+an unreadable YAML view, a Python repr in the markdown view is an unattributed failure (VIOLATION).  The former
+witnesses are corpus regressions (corpus/C14/fixed-88905cd-*.json) that must pass.  The CLI (`octave eject`) has its own
+copies of the converters in cli/main.py, which were NOT repaired: attribution of a CLI difference requires
+via == "octave eject" AND the class the CLI output/error names (C14-cli-*).
 """
 from __future__ import annotations
 
@@ -32,9 +39,12 @@ FILTER_KEYS = ["STATUS", "RISKS", "DECISIONS", "TESTS", "CI", "DEPS"]
 F_SECTION = "C14-section-dropped"
 F_DUP = "C14-duplicate-key-collapse"
 F_TARGET = "C14-block-target-dropped"
-F_HOLO = "C14-holographic-python-dump"
 F_CLI_MD = "C14-cli-markdown-repr"
 F_CLI_ZONE = "C14-cli-zone-not-exported"
+F_CLI_HOLO = "C14-cli-holographic-not-exported"
+F_CLI_META = "C14-cli-nested-meta-not-converted"
+CLI_FINDINGS = (F_CLI_MD, F_CLI_ZONE, F_CLI_HOLO, F_CLI_META)
+REPR_MARKS = (" object at 0x", "Token(", "HolographicValue(", "ListValue(", "InlineMap(", "LiteralZoneValue(", "!!python/")
 
 
 def _apply_selftest_mutation(name):
@@ -77,6 +87,15 @@ def _apply_selftest_mutation(name):
             return orig(doc, "executive" if mode == "canonical" else mode)
         P.project = f
         E.project = f
+    elif name == "holo_passthrough":       # _convert_value without the HolographicValue case (pre-88905cd behaviour)
+        orig = E._convert_value
+        E._convert_value = lambda v: v if isinstance(v, A.HolographicValue) else orig(v)
+    elif name == "md_holo_repr":           # _format_markdown_value without the HolographicValue case
+        orig = E._format_markdown_value
+        E._format_markdown_value = lambda v: str(v) if isinstance(v, A.HolographicValue) else orig(v)
+    elif name == "meta_dict_passthrough":  # _convert_value without the dict case
+        orig = E._convert_value
+        E._convert_value = lambda v: v if isinstance(v, dict) else orig(v)
     else:
         raise RuntimeError(f"unknown self-test mutation {name}")
 
@@ -117,11 +136,48 @@ def tok_value(v):
         return f"Z {enc_str(v.content)} {tok_ostr(v.info_tag)} {enc_str(v.fence_marker)}"
     if isinstance(v, A.HolographicValue):
         return "H " + enc_str(v.raw_pattern)
-    if isinstance(v, list):      # plain python list (dict side)
-        return " ".join([f"L {len(v)}"] + [tok_value(x) for x in v])
-    if isinstance(v, dict):
+    if isinstance(v, dict):      # nested META block (parse_meta_block builds a plain dict): VMap in the model
+        for k in v:
+            if not isinstance(k, str):
+                raise OutOfModel("non-string key")
         return " ".join([f"M {len(v)}"] + [enc_str(k) + " " + tok_value(x) for k, x in v.items()])
     raise OutOfModel(f"value kind {type(v).__name__}")
+
+
+def tok_native(v):
+    """tokens of the tree _ast_to_dict returns (the model's jv).  STRICT: only native Python values have a native token;
+    an AST object left in the tree prints as the model's pass-through constructor (H / Z) or, where the model has none
+    (ListValue / InlineMap objects inside an unconverted dict), as a token no model output can equal."""
+    A = _A()
+    if v is None:
+        return "z"
+    if isinstance(v, bool):
+        return "b1" if v else "b0"
+    if isinstance(v, int):
+        return "i" + str(v)
+    if isinstance(v, float):
+        return "f" + enc_str(repr(v))
+    if isinstance(v, str):
+        return "s" + enc_str(v)
+    if isinstance(v, list):
+        return " ".join([f"L {len(v)}"] + [tok_native(x) for x in v])
+    if isinstance(v, dict):
+        return " ".join([f"M {len(v)}"] + [enc_str(str(k)) + " " + tok_native(x) for k, x in v.items()])
+    if isinstance(v, A.HolographicValue):
+        return "H " + enc_str(v.raw_pattern)
+    if isinstance(v, A.LiteralZoneValue):
+        return f"Z {enc_str(v.content)} {tok_ostr(v.info_tag)} {enc_str(v.fence_marker)}"
+    return "!object:" + type(v).__name__
+
+
+def is_native(v):
+    if v is None or isinstance(v, (bool, int, float, str)):
+        return True
+    if isinstance(v, list):
+        return all(is_native(x) for x in v)
+    if isinstance(v, dict):
+        return all(isinstance(k, str) and is_native(x) for k, x in v.items())
+    return False
 
 
 def tok_node(n):
@@ -176,7 +232,9 @@ def items_value(p, v):
     if isinstance(v, A.LiteralZoneValue):
         return zone_items(p, v.content, v.info_tag, v.fence_marker)
     if isinstance(v, A.HolographicValue):
-        return [(p, "h" + enc_str(v.raw_pattern))]
+        # a holographic value is contained as its canonical pattern text (Proj/Ast.v items_v); an OBJECT left in a
+        # dict tree is a different cell ("h", see items_native)
+        return [(p, "s" + enc_str(v.raw_pattern))]
     if isinstance(v, (A.ListValue, list)):
         xs = v.items if isinstance(v, A.ListValue) else v
         if not xs:
@@ -233,10 +291,36 @@ def items_doc(doc):
     return out
 
 
+def items_native(p, v):
+    """items of a dict tree (Proj/Convert.v items_j): native values; AST objects left in it are object cells"""
+    A = _A()
+    if isinstance(v, A.HolographicValue):
+        return [(p, "h" + enc_str(v.raw_pattern))]
+    if isinstance(v, A.LiteralZoneValue):
+        return zone_items(p, v.content, v.info_tag, v.fence_marker)
+    if isinstance(v, list):
+        if not v:
+            return [(p, "e")]
+        out = [(p, "N")]
+        for i, x in enumerate(v):
+            out += items_native(p + (f"i{i}",), x)
+        return out
+    if isinstance(v, dict):
+        out = [(p, "N")]
+        for k, x in v.items():
+            if not isinstance(k, str):
+                raise OutOfModel("non-string key")
+            out += items_native(p + ("k" + enc_str(k),), x)
+        return out
+    if v is None or isinstance(v, (bool, int, float, str)):
+        return [(p, leaf_cell(v))]
+    return [(p, "!object:" + type(v).__name__)]
+
+
 def items_pydict(d):
     out = []
     for k, v in d.items():
-        out += items_value(("k" + enc_str(k),), v)
+        out += items_native(("k" + enc_str(k),), v)
     return out
 
 
@@ -260,7 +344,9 @@ def md_text(v):
     if isinstance(v, A.InlineMap):
         return ", ".join(f"{k}: {md_text(x)}" for k, x in v.pairs.items())
     if isinstance(v, A.HolographicValue):
-        return v.raw_pattern          # what an honest view would show; the implementation prints a Python repr
+        return v.raw_pattern          # the canonical pattern text
+    if isinstance(v, dict):           # nested META block
+        return ", ".join(f"{k}: {md_text(x)}" for k, x in v.items())
     return str(v)
 
 
@@ -340,6 +426,9 @@ def has_kind(doc, kind):
         elif isinstance(v, A.InlineMap):
             for x in v.pairs.values():
                 val(x)
+        elif isinstance(v, dict):
+            for x in v.values():
+                val(x)
 
     def walk(n):
         if isinstance(n, A.Assignment):
@@ -361,8 +450,6 @@ def attribute_missing(item, dups):
         return F_SECTION
     if "t" in p:
         return F_TARGET
-    if c.startswith("h"):
-        return F_HOLO
     for i in range(1, len(p) + 1):
         if p[:i] in dups:
             return F_DUP
@@ -390,21 +477,44 @@ def gen_scalar(rng):
 
 
 def gen_value(rng, depth=0, allow_zone=True, allow_holo=True):
+    """holographic values (placeholder HOLO, replaced at text level) in EVERY value position: assignment value,
+    list item at any depth, inline-map value"""
     A = _A()
     r = rng.random()
+    if depth > 0 and allow_holo and r < 0.22:
+        return "HOLO"
     if r < 0.5 or depth > 2:
         return gen_scalar(rng)
     if r < 0.72:
         n = rng.choice([0, 1, 2, 3, 4])
-        return A.ListValue(items=[gen_value(rng, depth + 1, False, False) for _ in range(n)])
+        return A.ListValue(items=[gen_value(rng, depth + 1, False, allow_holo) for _ in range(n)])
     if r < 0.84:
-        return A.ListValue(items=[A.InlineMap(pairs={rng.choice(["k", "j", "id"]): gen_scalar(rng)}) for _ in range(rng.randint(1, 3))])
+        return A.ListValue(items=[A.InlineMap(pairs={rng.choice(["k", "j", "id"]): ("HOLO" if allow_holo and rng.random() < 0.3 else gen_scalar(rng))})
+                                  for _ in range(rng.randint(1, 3))])
     if r < 0.93 and allow_zone and depth == 0:
         return A.LiteralZoneValue(content=rng.choice(["code", "line1\nline2", "x = 1\n", "", "a: b"]),
                                   info_tag=rng.choice([None, "py", "json"]), fence_marker=rng.choice(["```", "````"]))
     if allow_holo and depth == 0:
         return "HOLO"         # placeholder replaced at text level
     return gen_scalar(rng)
+
+
+def gen_meta_block(rng, features):
+    """a nested META block (parse_meta_block -> plain dict) holding lists (incl. empty / nested / of inline maps),
+    holographic values and scalars in every position"""
+    A = _A()
+    out = {}
+    for k in rng.sample(["L", "H", "S", "I", "M", "E", "Q"], rng.randint(1, 4)):
+        r = rng.random()
+        if r < 0.4:
+            out[k] = A.ListValue(items=[gen_value(rng, 1, False, features["holo"]) for _ in range(rng.choice([0, 1, 2, 3]))])
+        elif r < 0.55 and features["holo"]:
+            out[k] = "HOLO"
+        elif r < 0.65:
+            out[k] = A.ListValue(items=[A.InlineMap(pairs={"k": gen_scalar(rng)}), gen_scalar(rng)])
+        else:
+            out[k] = gen_scalar(rng)
+    return out
 
 
 HOLO_TEXTS = ['["ex"∧REQ→§SELF]', '["ACTIVE"∧REQ∧ENUM[ACTIVE,DONE]]', '["x"∧OPT]']
@@ -437,7 +547,8 @@ def gen_doc(rng, i):
     A = _A()
     # every feature is off in a share of documents so that the wf (theorem) domain is well represented
     features = {f: rng.random() < p for f, p in
-                [("section", 0.35), ("dup", 0.3), ("target", 0.3), ("holo", 0.2), ("zone", 0.5), ("comment", 0.4)]}
+                [("section", 0.35), ("dup", 0.3), ("target", 0.3), ("holo", 0.35), ("zone", 0.5), ("comment", 0.4),
+                 ("nmeta", 0.35)]}
     if i % 5 == 0:
         features = dict.fromkeys(features, False)
         features["zone"] = True
@@ -453,16 +564,20 @@ def gen_doc(rng, i):
         meta = {"TYPE": "X", "VERSION": "1.0"}
         if rng.random() < 0.3:
             meta["TAGS"] = A.ListValue(items=["a", "b"])
+        if features["holo"] and rng.random() < 0.5:
+            meta[rng.choice(["PATTERN", "TAGS"])] = rng.choice(["HOLO", A.ListValue(items=["HOLO", "a"]), A.ListValue(items=["x", A.ListValue(items=["HOLO"])])])
+    if features["nmeta"]:
+        for k in rng.sample(["N", "CONTRACT_NOTES", "N2"], rng.randint(1, 2)):
+            meta[k] = gen_meta_block(rng, features)
     return A.Document(name="DOC", meta=meta, sections=sections), features
 
 
 def doc_text(doc, rng):
     """emit, then splice holographic patterns in at text level (the emitter needs parser-made HolographicValues)"""
+    import re
     from octave_mcp.core.emitter import emit
     t = emit(doc)
-    while "::HOLO\n" in t:
-        t = t.replace("::HOLO\n", "::" + rng.choice(HOLO_TEXTS) + "\n", 1)
-    return t
+    return re.sub(r"\bHOLO\b", lambda m: rng.choice(HOLO_TEXTS), t)
 
 
 # ---------------------------------------------------------------------------------------------------
@@ -499,7 +614,9 @@ def run(ctx):
         "documents are generated as ASTs (top-level assignments/blocks over the six filter keys STATUS RISKS DECISIONS "
         "TESTS CI DEPS and %d plain keys, blocks nested to depth 3 with optional [->TARGET], section markers with "
         "children and annotation, lists incl. empty and nested, lists of inline maps, literal zones, holographic "
-        "values, duplicate sibling keys (assignment and block), orphan comments, META with list value), emitted to "
+        "values in every value position (assignment at any depth, list item at any depth, inline-map value, META "
+        "value, inside nested META blocks), nested META blocks holding lists / lists of inline maps / holographic "
+        "values / scalars, duplicate sibling keys (assignment and block), orphan comments, META with list value), emitted to "
         "text; the source of truth is what the real parser reads back. Each feature is switched off in a share of "
         "documents (1 in 5 documents has none but zones) so that the theorem domain wf_doc is represented. "
         "x 4 modes x 4 formats through EjectTool.execute, plus `octave eject` through click's CliRunner. "
@@ -513,7 +630,7 @@ def run(ctx):
         "json.dumps / yaml.dump are trusted to serialise the dict tree; their output is parsed back with json.loads / yaml.safe_load",
         "the markdown pair scan (md_scan) is the harness' reading of a markdown view: `- **K**: text` / `**K**: text` lines, fenced blocks re-joined",
         "OCTAVE output is read back with octave_mcp.parse; emit/parse fidelity of scalars is C01-C04 (generated scalars are tame)",
-        "str(HolographicValue) contains object addresses: markdown text is compared with the model only for documents without holographic values",
+        "since repair 88905cd the markdown model needs no str(HolographicValue) oracle: the exact markdown text is compared with the model for every document",
     ]
 
 
@@ -541,6 +658,12 @@ def _run(ctx, root, have_model):
         for fn in sorted(os.listdir(corpus_dir)):
             if fn.endswith(".oct.md"):
                 texts.append((open(os.path.join(corpus_dir, fn), encoding="utf-8").read(), {"corpus": fn}))
+            elif fn.endswith(".json"):
+                # regression of a REPAIRED finding: must pass (no attribution possible); the document also runs
+                # through the whole pipeline below
+                reg = json.load(open(os.path.join(corpus_dir, fn), encoding="utf-8"))
+                regression_fixed(ctx, loop, tool, reg, fn)
+                texts.append((reg["doc_text"], {"corpus": fn}))
     n_docs = ctx.scale(260, 6000)
     for i in range(n_docs):
         d, feats = gen_doc(rng, i)
@@ -567,10 +690,14 @@ def _run(ctx, root, have_model):
         src_tok = tok_doc(src)
         src_items = items_doc(src)
         holo = has_kind(src, A.HolographicValue)
+        nmeta = any(isinstance(v, dict) for v in src.meta.values())
         ctx.hist("doc_items", min(len(src_items) // 10 * 10, 100))
-        for f in ("section", "dup", "target", "holo", "zone", "comment"):
+        for f in ("section", "dup", "target", "holo", "zone", "comment", "nmeta"):
             if feats.get(f):
                 ctx.hist("feature", f)
+        ctx.hist("parsed_document_has", ("holographic " if holo else "") + ("nested-META " if nmeta else "") or "neither")
+        for pos in holo_positions(src):
+            ctx.hist("holographic_position", pos)
         if have_model:
             m_lines.append("items " + src_tok)
             m_expect.append(("items(source)", {"doc_text": text}, fmt_items(src_items)))
@@ -591,15 +718,15 @@ def _run(ctx, root, have_model):
                 vt = tok_doc(view)
                 pyd = E._ast_to_dict(view)
                 m_lines.append("dict 0 " + vt)
-                m_expect.append((f"_ast_to_dict({mode})", {"doc_text": text, "mode": mode}, tok_value(pyd)))
+                m_expect.append((f"_ast_to_dict({mode})", {"doc_text": text, "mode": mode}, tok_native(pyd)))
                 m_lines.append("ditems 0 " + vt)
                 m_expect.append((f"items(dict,{mode})", {"doc_text": text, "mode": mode}, fmt_items(items_pydict(pyd))))
-                if not holo:
-                    m_lines.append("md T 0 " + vt)
-                    m_expect.append((f"_ast_to_markdown({mode})", {"doc_text": text, "mode": mode}, enc_str(E._ast_to_markdown(view))))
-                    ctx.hist("model_scope", "in_model")
-                else:
-                    ctx.hist("model_scope", "markdown text out_of_model (holographic repr)")
+                m_lines.append("native 0 " + vt)
+                m_expect.append((f"native(dict,{mode})", {"doc_text": text, "mode": mode}, "1" if is_native(pyd) else "0"))
+                # exact markdown text, for EVERY document (no holographic exclusion since repair 88905cd)
+                m_lines.append("md " + vt)
+                m_expect.append((f"_ast_to_markdown({mode})", {"doc_text": text, "mode": mode}, enc_str(E._ast_to_markdown(view))))
+                ctx.hist("model_scope", "in_model" + (" (holographic)" if holo else ""))
                 m_lines.append("wf " + vt)
                 m_expect.append(("wf", None, None))
             # AST level: no invention, lossy flag
@@ -620,16 +747,14 @@ def _run(ctx, root, have_model):
                 ctx.hist("mode_format", f"{mode}/{fmt}")
                 try:
                     r = loop.run_until_complete(tool.execute(content=text, schema="X", mode=mode, format=fmt))
-                except TypeError as e:
-                    if fmt == "json" and has_kind(view, A.HolographicValue):
-                        ctx.hist("out_of_scope", "json eject of a holographic value raises TypeError (C20)")
-                        continue
-                    ctx.property_failure(case, f"octave_eject raised {type(e).__name__}: {e}")
-                    continue
-                except Exception as e:  # noqa
+                except Exception as e:  # noqa  -- no attribution: the tool path has no listed exception finding in C14
                     ctx.property_failure(case, f"octave_eject raised {type(e).__name__}: {e}")
                     continue
                 out = r.get("output")
+                if fmt != "octave":
+                    marks = [m for m in REPR_MARKS if m in out and m not in text]
+                    if marks:
+                        ctx.property_failure(dict(case, marks=marks), f"{fmt} view contains a Python object dump / repr ({marks[0].strip()})")
                 lossy = r.get("lossy")
                 if lossy is not pr.lossy or list(r.get("fields_omitted", [])) != list(pr.fields_omitted):
                     ctx.property_failure(case, "octave_eject: lossy / fields_omitted differ from project()")
@@ -638,10 +763,7 @@ def _run(ctx, root, have_model):
                 kind, got = parse_back(fmt, out)
                 per_format[fmt] = (kind, got)
                 if kind == "unreadable":
-                    if fmt == "yaml" and has_kind(view, A.HolographicValue):
-                        ctx.property_failure(case, "yaml view of a holographic value is a Python object dump", finding=F_HOLO)
-                    else:
-                        ctx.property_failure(dict(case, reason=got), f"{fmt} output cannot be read back")
+                    ctx.property_failure(dict(case, reason=got), f"{fmt} output cannot be read back")
                     continue
                 if kind == "items":
                     gset = set(got)
@@ -668,13 +790,10 @@ def _run(ctx, root, have_model):
                         if sec_pairs.get((k, t), 0) > 0:
                             fid = F_SECTION
                             sec_pairs[(k, t)] -= 1
-                        elif holo:
-                            fid = F_HOLO
                         ctx.hist("missing_item_attribution", (fid or "unattributed") + "(markdown)")
                         ctx.property_failure(dict(case, missing=[k, t[:80]]), f"markdown view omits {k}", finding=fid)
                     for k, t in extra:
-                        fid = F_HOLO if (holo and "HolographicValue(" in t) else None
-                        ctx.property_failure(dict(case, invented=[k, t[:80]]), f"markdown view shows {k}: {t[:40]!r} which the source does not have", finding=fid)
+                        ctx.property_failure(dict(case, invented=[k, t[:80]]), f"markdown view shows {k}: {t[:40]!r} which the source does not have")
                     # targets are not shown by markdown either
                     if any("t" in p for p, _ in view_items):
                         ctx.property_failure(case, "markdown view omits a block target", finding=F_TARGET)
@@ -712,18 +831,13 @@ def _run(ctx, root, have_model):
                     if ref is not None and res.exit_code == 0 and res.output == ref:
                         continue
                     case = {"doc_text": text, "mode": mode, "format": fmt, "via": "octave eject", "exit": res.exit_code}
-                    nonscalar = any(isinstance(v, (A.ListValue, A.InlineMap, A.LiteralZoneValue, A.HolographicValue))
-                                    for v in list(view.meta.values()) + [a.value for a in _assignments(view)])
-                    fid = None
-                    if fmt == "markdown" and nonscalar:
-                        fid = F_CLI_MD
-                    elif fmt in ("json", "yaml") and has_kind(view, A.LiteralZoneValue):
-                        fid = F_CLI_ZONE
-                    elif fmt in ("json", "yaml", "markdown") and has_kind(view, A.HolographicValue):
-                        if ref is None and res.exit_code != 0:
-                            ctx.hist("out_of_scope", "cli json eject of a holographic value errors (C20)")
-                            continue
-                        fid = F_HOLO
+                    if ref is None:
+                        # the TOOL raised on this call: already reported above as an unattributed failure of the tool;
+                        # nothing to compare the CLI with
+                        ctx.hist("path", "cli eject: no tool reference")
+                        continue
+                    fid = attribute_cli(view, fmt, res)
+                    ctx.hist("cli_difference_attribution", fid or "unattributed")
                     ctx.property_failure(case, f"`octave eject --format {fmt}` prints a different view than octave_eject", finding=fid)
     ctx.extra["documents"] = len(texts)
     ctx.extra["cli_invocations"] = n_cli
@@ -759,6 +873,145 @@ def _assignments(doc):
     return out
 
 
+def holo_positions(doc):
+    """where holographic values sit in a parsed document (evidence histogram)"""
+    A = _A()
+    out = []
+
+    def val(v, where):
+        if isinstance(v, A.HolographicValue):
+            out.append(where)
+        elif isinstance(v, A.ListValue):
+            for x in v.items:
+                val(x, where + ">list-item")
+        elif isinstance(v, A.InlineMap):
+            for x in v.pairs.values():
+                val(x, where + ">map-value")
+        elif isinstance(v, dict):
+            for x in v.values():
+                val(x, "nested-META-value")
+
+    def walk(n, depth):
+        if isinstance(n, A.Assignment):
+            val(n.value, "assignment" if depth == 0 else "nested-assignment")
+        elif isinstance(n, A.Block):
+            for c in n.children:
+                walk(c, depth + 1)
+        elif isinstance(n, A.Section):
+            for c in n.children:
+                walk(c, depth + 1)
+    for v in doc.meta.values():
+        val(v, "META-value")
+    for n in doc.sections:
+        walk(n, 0)
+    return out
+
+
+def _meta_block_nonnative(doc):
+    """class names of the AST objects a nested META block (dict) holds, at any depth below the dict"""
+    A = _A()
+    found = set()
+
+    def val(v, inside):
+        if isinstance(v, dict):
+            for x in v.values():
+                val(x, True)
+        elif isinstance(v, A.ListValue):
+            if inside:
+                found.add("ListValue")
+            for x in v.items:
+                val(x, inside)
+        elif isinstance(v, A.InlineMap):
+            if inside:
+                found.add("InlineMap")
+            for x in v.pairs.values():
+                val(x, inside)
+        elif isinstance(v, (A.HolographicValue, A.LiteralZoneValue)) and inside:
+            found.add(type(v).__name__)
+    for v in doc.meta.values():
+        val(v, False)
+    return found
+
+
+def attribute_cli(view, fmt, res):
+    """Which listed CLI finding explains that `octave eject --format fmt` differs from what octave_eject returns for the
+    same projection.  Every clause is (a) via the CLI (the only caller), (b) a predicate on the projected document,
+    (c) the class the CLI's own output / error message names.  cli/main.py is not touched by repair 88905cd."""
+    A = _A()
+    out = res.output or ""
+    if fmt == "markdown":
+        direct = list(view.meta.values()) + [a.value for a in _assignments(view)]
+        if any(isinstance(v, (A.ListValue, A.InlineMap, A.LiteralZoneValue, A.HolographicValue, dict)) for v in direct):
+            return F_CLI_MD
+        return None
+    if fmt not in ("json", "yaml"):
+        return None
+
+    def names(cls):
+        if fmt == "json":
+            return res.exit_code != 0 and f"Object of type {cls} is not JSON serializable" in out
+        return res.exit_code == 0 and f"!!python/object:octave_mcp.core.ast_nodes.{cls}" in out
+    # the serialiser stops at / dumps the FIRST offending object: attribute by the class it names
+    if has_kind(view, A.LiteralZoneValue) and names("LiteralZoneValue"):
+        return F_CLI_ZONE
+    if has_kind(view, A.HolographicValue) and names("HolographicValue"):
+        return F_CLI_HOLO
+    nn = _meta_block_nonnative(view)
+    if any(names(c) for c in ("ListValue", "InlineMap") if c in nn):
+        return F_CLI_META
+    return None
+
+
+def regression_fixed(ctx, loop, tool, reg, fn):
+    """corpus/C14/fixed-*.json: the witness of a REPAIRED finding.  Everything below must hold; a miss is reported without
+    attribution (VIOLATION)."""
+    import yaml
+    text, leaf = reg["doc_text"], reg["expect_string_leaf"]
+    for mode in MODES if reg.get("all_modes", True) else ["canonical"]:
+        outs = {}
+        for fmt in FORMATS:
+            case = {"regression": fn, "doc_text": text, "mode": mode, "format": fmt}
+            ctx.count()
+            try:
+                r = loop.run_until_complete(tool.execute(content=text, schema="X", mode=mode, format=fmt))
+            except Exception as e:  # noqa
+                ctx.property_failure(case, f"regression {reg['fixed']}: octave_eject raised {type(e).__name__}: {e}")
+                continue
+            outs[fmt] = r["output"]
+        if mode not in ("canonical", "authoring"):
+            continue          # the filtered modes drop the witness key: only "no exception" is demanded there
+
+        def leaves(v):
+            if isinstance(v, dict):
+                return [x for y in v.values() for x in leaves(y)]
+            if isinstance(v, list):
+                return [x for y in v for x in leaves(y)]
+            return [v]
+        case = {"regression": fn, "doc_text": text, "mode": mode}
+        if "json" in outs:
+            try:
+                lv = leaves(json.loads(outs["json"]))
+                if leaf not in lv:
+                    ctx.property_failure(dict(case, format="json"), f"regression {reg['fixed']}: json view lacks the string leaf {leaf!r}")
+            except Exception as e:  # noqa
+                ctx.property_failure(dict(case, format="json"), f"regression {reg['fixed']}: json view does not parse: {e}")
+        if "yaml" in outs:
+            try:
+                lv = leaves(yaml.safe_load(outs["yaml"]))
+                if leaf not in lv:
+                    ctx.property_failure(dict(case, format="yaml"), f"regression {reg['fixed']}: yaml view lacks the string leaf {leaf!r}")
+            except Exception as e:  # noqa
+                ctx.property_failure(dict(case, format="yaml"), f"regression {reg['fixed']}: yaml view is not safe_load-able: {type(e).__name__}")
+        if "markdown" in outs:
+            md = outs["markdown"]
+            bad = [m for m in (" object at 0x", "Token(") if m in md]
+            if bad:
+                ctx.property_failure(dict(case, format="markdown"), f"regression {reg['fixed']}: markdown view contains {bad[0].strip()!r}")
+            if leaf not in md:
+                ctx.property_failure(dict(case, format="markdown"), f"regression {reg['fixed']}: markdown view lacks the text {leaf!r}")
+    ctx.hist("corpus", "regression of a repaired finding: " + fn)
+
+
 def replay_witness(loop, tool, root, w, fid):
     """True iff the committed witness still shows the defect."""
     from octave_mcp.core.parser import parse
@@ -766,15 +1019,15 @@ def replay_witness(loop, tool, root, w, fid):
     from octave_mcp.cli.main import cli
     text, mode, fmt = w["doc_text"], w.get("mode", "canonical"), w["format"]
     src = parse(text)
-    if fid in (F_CLI_MD, F_CLI_ZONE):
+    if fid in CLI_FINDINGS:
         fp = os.path.join(root, "w.oct.md")
         with open(fp, "w", encoding="utf-8") as fh:
             fh.write(text)
         res = CliRunner().invoke(cli, ["eject", fp, "--mode", mode, "--format", fmt])
-        return w["expect_in_output"] in (res.output or "")
+        # the defect is the CLI's alone: the tool must be clean on the same input
+        r = loop.run_until_complete(tool.execute(content=text, schema="X", mode=mode, format=fmt))
+        return w["expect_in_output"] in (res.output or "") and w["expect_in_output"] not in r["output"]
     r = loop.run_until_complete(tool.execute(content=text, schema="X", mode=mode, format=fmt))
-    if fid == F_HOLO:
-        return w["expect_in_output"] in r["output"]
     kind, got = parse_back(fmt, r["output"])
     if kind == "items":
         missing = [it for it in items_doc(src) if it not in set(got)]
